@@ -122,7 +122,11 @@ func rlConfig(creds *rlCreds, sc int, n string, v int) *models.Namespace {
 		Slices: []*models.Slice{{Name: "s0", UserName: "root", Password: "root", Master: "127.0.0.1:1",
 			Capacity: 1, MaxCapacity: 1, IdleTimeout: 3600}},
 	}
+	sabotage := os.Getenv("VERIF_RELOAD_SABOTAGE") == fmt.Sprintf("%s/%d", n, v) // binding self-test only
 	for _, p := range creds.of(sc, n, v) {
+		if sabotage {
+			p[1] += "~" // the proxy gets another password than the reference believes
+		}
 		cfg.Users = append(cfg.Users, &models.User{UserName: p[0], Password: p[1], Namespace: n,
 			RWFlag: models.ReadWrite, RWSplit: models.NoReadWriteSplit})
 	}
@@ -276,10 +280,12 @@ func (r *rlManager) observe() []int {
 
 var rlSalt = []byte("0123456789abcdefghij")
 
-// what a client with (user, password) gets: "" = rejected, "<none>" = authenticated but bound to no namespace
+// what a client with (user, password) gets: "" = access denied, otherwise the namespace the session is bound to.
+// As in Session.Handshake: CheckUser, CheckPassword, GetNamespaceByUser (handleHandshakeResponse), then
+// IsAllowConnect, which denies access when the namespace the credentials map to does not exist.
 type rlAuthFn func(u, p string) string
 
-func rlAuthOf(checkUser func(string) bool, checkPw func(string, []byte, []byte) (bool, string), nsOf func(string, string) string) rlAuthFn {
+func rlAuthOf(checkUser func(string) bool, checkPw func(string, []byte, []byte) (bool, string), nsOf func(string, string) string, exists func(string) bool) rlAuthFn {
 	return func(u, p string) string {
 		if !checkUser(u) {
 			return ""
@@ -289,18 +295,18 @@ func rlAuthOf(checkUser func(string) bool, checkPw func(string, []byte, []byte) 
 			return ""
 		}
 		ns := nsOf(u, pw)
-		if ns == "" {
-			return "<none>"
+		if ns == "" || !exists(ns) {
+			return ""
 		}
 		return ns
 	}
 }
 
 func (r *rlManager) authDirect() rlAuthFn {
-	return rlAuthOf(r.m.CheckUser, r.m.CheckPassword, r.m.GetNamespaceByUser)
+	return rlAuthOf(r.m.CheckUser, r.m.CheckPassword, r.m.GetNamespaceByUser, func(n string) bool { return r.m.GetNamespace(n) != nil })
 }
 
-// authHandshake goes through the real Session.handleHandshakeResponse (native password plugin).
+// authHandshake goes through the real Session.handleHandshakeResponse (native password plugin) and IsAllowConnect.
 func (r *rlManager) authHandshake() rlAuthFn {
 	if r.sess == nil {
 		a, b := net.Pipe()
@@ -317,11 +323,8 @@ func (r *rlManager) authHandshake() rlAuthFn {
 		cc.namespace, cc.executor.namespace, cc.executor.user = "", "", ""
 		err := cc.handleHandshakeResponse(HandshakeResponseInfo{CollationID: mysql.DefaultCollationID, User: u,
 			AuthResponse: mysql.CalcPassword(rlSalt, []byte(p)), Salt: rlSalt, AuthPlugin: mysql.MysqlNativePassword})
-		if err != nil {
+		if err != nil || !cc.IsAllowConnect() {
 			return ""
-		}
-		if cc.namespace == "" {
-			return "<none>"
 		}
 		return cc.namespace
 	}
@@ -345,7 +348,8 @@ type rlStep struct {
 	Want    int    // the version a successful commit must activate
 	Exp     []int  // P-level: visible state after the step (along the predicted outcomes)
 	Iact    []int  // I-level: what the code is predicted to show
-	Ptr     [][]string
+	Ptr     [][]string // P-level: reference directory <<namespace, user, password>> (C29 runs)
+	Iauth   [][]string // I-level: what the code-shaped directory is predicted to accept (C29 runs)
 }
 
 func (s *rlStep) UnmarshalJSON(b []byte) error {
@@ -356,8 +360,11 @@ func (s *rlStep) UnmarshalJSON(b []byte) error {
 	if len(raw) < 9 {
 		return fmt.Errorf("step tuple has %d fields", len(raw))
 	}
-	dst := []interface{}{&s.Op, &s.N, &s.V, &s.Out, &s.Allowed, &s.Want, &s.Exp, &s.Iact, &s.Ptr}
+	dst := []interface{}{&s.Op, &s.N, &s.V, &s.Out, &s.Allowed, &s.Want, &s.Exp, &s.Iact, &s.Ptr, &s.Iauth}
 	for i, d := range dst {
+		if i >= len(raw) {
+			break
+		}
 		if err := json.Unmarshal(raw[i], d); err != nil {
 			return fmt.Errorf("step field %d: %v", i, err)
 		}
@@ -389,7 +396,8 @@ func rlLetter(i int) string { return string(rune('A' + i)) }
 // rlShape: the operations that matter for the step at index i, with namespaces renamed in order of appearance.
 // Window = operations after the last commit attempt; deletes of absent namespaces (no-ops) are dropped; of the
 // prepares only the last one counts (it overwrites the pending generation), plus the last prepare of the
-// committed namespace when that is a different one.
+// committed namespace when that is a different one; of the deletes after the last prepare only the last one.
+// The result is one of a small closed family of shapes whatever the length of the behaviour.
 func rlShape(c *rlCase, i int, before [][]int) (string, map[string]string) {
 	idxOf := map[string]int{}
 	for k, n := range c.Ns {
@@ -421,7 +429,19 @@ func rlShape(c *rlCase, i int, before [][]int) (string, map[string]string) {
 		if cur.N != w[lastPrep].n && cur.Want != 0 {
 			seq = append(seq, op{"prepare", cur.N})
 		}
-		seq = append(seq, w[lastPrep:]...)
+		seq = append(seq, w[lastPrep])
+		// of the deletes after the last prepare only the last one counts: every effective delete rebuilds the
+		// spare generation from the visible one, so the earlier ones leave no trace
+		lastDel := -1
+		for j := lastPrep + 1; j < len(w)-1; j++ {
+			if w[j].op == "delete" {
+				lastDel = j
+			}
+		}
+		if lastDel >= 0 {
+			seq = append(seq, w[lastDel])
+		}
+		seq = append(seq, w[len(w)-1])
 	} else {
 		seq = w
 	}
@@ -447,12 +467,12 @@ func rlTriples(creds *rlCreds, sc int, names []string, act []int) map[[2]string]
 }
 
 type rlCounters struct {
-	steps, probes, hsProbes, drift, panicsNoEffect, unexaminedAfterDrift int
-	driftExample                                                         string
+	steps, probes, hsProbes, drift, authDrift, panicsNoEffect, unexaminedAfterDrift int
+	driftExample, authDriftExample                                                  string
 }
 
 // replayManager: one behaviour on a real Manager.
-func rlReplayManager(creds *rlCreds, c *rlCase, res *verifkit.Result, cnt *rlCounters, trace *verifkit.Out, id int, handshake bool, prop string) {
+func rlReplayManager(creds *rlCreds, c *rlCase, res *verifkit.Result, cnt *rlCounters, trace *verifkit.Out, id int, handshake bool, prop string, usePtr bool) {
 	r, err := rlNewManager(creds, c.Sc, c.Ns, c.Init, true)
 	if err != nil {
 		res.Dev(prop+" harness manager-setup-failed", "%v", err)
@@ -467,18 +487,23 @@ func rlReplayManager(creds *rlCreds, c *rlCase, res *verifkit.Result, cnt *rlCou
 	}
 	before := make([][]int, len(c.Steps))
 	badAuth := map[[2]string]bool{}
-	deleted := map[string]bool{}
-	insync := true
+	insync := true // the real outcomes and visible states so far are those TLC's behaviour assumes: its exp / iact / ptr apply
 	for i := range c.Steps {
 		st := &c.Steps[i]
 		before[i] = append([]int{}, tracked...)
 		cnt.steps++
 		out, detail := r.do(creds, c.Sc, st.Op, st.N, st.V)
 		got := r.observe()
-		if trace != nil {
-			trace.Write(map[string]interface{}{"t": id, "ev": st.Op, "n": st.N, "v": st.V, "out": out, "obs": got, "ns": c.Ns, "init": c.Init, "sc": c.Sc})
+		mapDev := false
+		writeTrace := func() {
+			if trace != nil {
+				// dev: did this harness flag the step (compared with TLC's own judgement of the recorded line)
+				trace.Write(map[string]interface{}{"t": id, "ev": st.Op, "n": st.N, "v": st.V, "out": out, "obs": got, "ns": c.Ns,
+					"init": c.Init, "sc": c.Sc, "dev": mapDev})
+			}
 		}
 		// --- I-level faithfulness (MODEL-DRIFT, never a verdict)
+		onPath := insync && out == st.Out
 		if insync && (out != st.Out || !rlEq(got, st.Iact)) {
 			cnt.drift++
 			if cnt.driftExample == "" {
@@ -488,8 +513,10 @@ func rlReplayManager(creds *rlCreds, c *rlCase, res *verifkit.Result, cnt *rlCou
 		if st.Op == "prepare" && out != "ok" {
 			// the reference's "last prepared" (fields allowed / want of the later steps) assumes this prepare succeeded
 			if !rlEq(got, tracked) {
+				mapDev = true
 				res.Dev(prop+" failed prepare changes the visible configuration", "step %d prepare(%s,%d) %s (%s): visible %v -> %v", i, st.N, st.V, out, detail, tracked, got)
 			}
+			writeTrace()
 			cnt.unexaminedAfterDrift += len(c.Steps) - i - 1
 			return
 		}
@@ -513,6 +540,7 @@ func rlReplayManager(creds *rlCreds, c *rlCase, res *verifkit.Result, cnt *rlCou
 			case "commit":
 				if !st.Allowed {
 					sh, ro := getShape()
+					mapDev = true
 					res.Dev(fmt.Sprintf("%s %s -> commit(%s) reports success though nothing was prepared for %s", prop, sh, ro[st.N], ro[st.N]),
 						"step %d: commit(%s) returned nil, no configuration had been prepared for %s", i, st.N, st.N)
 				} else {
@@ -522,7 +550,7 @@ func rlReplayManager(creds *rlCreds, c *rlCase, res *verifkit.Result, cnt *rlCou
 				exp[k] = 0
 			}
 		}
-		if insync && out == st.Out && !rlEq(exp, st.Exp) {
+		if onPath && !rlEq(exp, st.Exp) {
 			res.Dev(prop+" harness expectation-mismatch", "step %d: step relation gives %v, TLC's expected state is %v", i, exp, st.Exp)
 			return
 		}
@@ -544,12 +572,10 @@ func rlReplayManager(creds *rlCreds, c *rlCase, res *verifkit.Result, cnt *rlCou
 				switch {
 				case e == b && g == 0:
 					kind = "is lost"
-				case e == b && b == 0 && deleted[n] && ok && strings.Contains(sh, "delete("+who+")"):
+				case e == b && b == 0 && ok && strings.Contains(sh, "delete("+who+")"):
 					kind = "(deleted) is resurrected"
-				case e == b && b == 0:
-					kind = "is activated without its commit"
 				case e == b:
-					kind = "changes configuration without its commit"
+					kind = "gets a configuration without its commit"
 				case g == b && st.Op == "commit":
 					kind = "is not activated (keeps its previous state)"
 				case g == b:
@@ -564,16 +590,38 @@ func rlReplayManager(creds *rlCreds, c *rlCase, res *verifkit.Result, cnt *rlCou
 					i, st.Op, st.N, out, detail, n, b, e, g, c.Ns, exp, got)
 			}
 			insync = false
+			mapDev = true
 		}
-		if st.Op == "delete" && out == "ok" {
-			deleted[st.N] = true
-		}
-		if st.Op == "commit" && out == "ok" {
-			delete(deleted, st.N)
-		}
+		writeTrace()
 		// --- user directory: every pair of the universe
-		wantAuth := rlTriples(creds, c.Sc, c.Ns, exp)  // reference
+		wantAuth := rlTriples(creds, c.Sc, c.Ns, exp) // reference
+		if usePtr && onPath {
+			// C29: the reference directory as TLC printed it (Reload!PTriples)
+			fromTLC := map[[2]string]string{}
+			for _, t := range st.Ptr {
+				if len(t) == 3 {
+					fromTLC[[2]string{t[1], t[2]}] = t[0]
+				}
+			}
+			if len(fromTLC) != len(wantAuth) || len(st.Ptr) != len(fromTLC) {
+				res.Dev(prop+" harness reference-directory-mismatch", "step %d: TLC %v, derived %v", i, st.Ptr, rlShowTriples(wantAuth))
+				return
+			}
+			for p, n := range fromTLC {
+				if wantAuth[p] != n {
+					res.Dev(prop+" harness reference-directory-mismatch", "step %d: TLC %v, derived %v", i, st.Ptr, rlShowTriples(wantAuth))
+					return
+				}
+			}
+			wantAuth = fromTLC
+		}
 		seenAuth := rlTriples(creds, c.Sc, c.Ns, got)  // what would belong to the observed namespace map
+		predicted := map[[2]string]string{}
+		for _, t := range st.Iauth {
+			if len(t) == 3 {
+				predicted[[2]string{t[1], t[2]}] = t[0]
+			}
+		}
 		fns := []rlAuthFn{r.authDirect()}
 		if handshake {
 			fns = append(fns, r.authHandshake())
@@ -585,6 +633,13 @@ func rlReplayManager(creds *rlCreds, c *rlCase, res *verifkit.Result, cnt *rlCou
 					cnt.hsProbes++
 				}
 				a := fn(p[0], p[1])
+				if usePtr && onPath && insync && a != predicted[p] {
+					// I-level faithfulness of the code-shaped directory (MODEL-DRIFT, never a verdict)
+					cnt.authDrift++
+					if cnt.authDriftExample == "" {
+						cnt.authDriftExample = fmt.Sprintf("case %d step %d %s(%s,%d): (%q,%q) predicted %q, code %q", id, i, st.Op, st.N, st.V, p[0], p[1], predicted[p], a)
+					}
+				}
 				if a == wantAuth[p] {
 					if fi == 0 {
 						delete(badAuth, p)
@@ -617,6 +672,9 @@ func rlReplayManager(creds *rlCreds, c *rlCase, res *verifkit.Result, cnt *rlCou
 					i, st.Op, st.N, st.V, p[0], p[1], wantAuth[p], via, a, rlShowTriples(wantAuth))
 			}
 		}
+		if out != st.Out {
+			insync = false // from here on only the step relation (resync mode) judges
+		}
 		tracked = got
 		if prop == "C29" {
 			tracked = exp // C29 judges the directory only; keep following the reference map
@@ -636,64 +694,58 @@ func rlShowTriples(m map[[2]string]string) string {
 	return strings.Join(s, " ")
 }
 
-func rlColon(s string) string {
-	if strings.Contains(s, ":") {
-		return "with ':'"
-	}
-	return "plain"
-}
-
-// rlAuthSig classifies a C29 deviation by the kind of wrong answer and by the ':' features of the probed pair
-// and of the credentials of the namespace the operation touched.
+// rlAuthSig classifies a C29 deviation by (operation, kind of wrong answer, relation of the probed pair to the
+// credentials of the namespace the operation touched).  The relation is a feature of the input, not the input.
 func rlAuthSig(creds *rlCreds, c *rlCase, st *rlStep, p [2]string, want, got string) string {
 	var kind string
 	switch {
 	case want != "" && got == "" && want == st.N:
-		kind = "credential of the changed namespace rejected"
+		kind = "configured pair of the changed namespace rejected"
 	case want != "" && got == "":
-		kind = "credential of another namespace rejected"
-	case want == "" && got == "<none>":
-		kind = "unconfigured credential accepted and bound to no namespace"
-	case want == "" && got == st.N:
-		kind = "unconfigured credential accepted into the changed namespace"
+		kind = "configured pair of another namespace rejected"
 	case want == "":
-		kind = "unconfigured credential accepted into another namespace"
-	case got == "<none>":
-		kind = "credential accepted but bound to no namespace"
-	case want == st.N:
-		kind = "credential of the changed namespace bound to another namespace"
-	case got == st.N:
-		kind = "credential of another namespace bound to the changed namespace"
+		kind = "unconfigured pair accepted"
 	default:
-		kind = "credential bound to a third namespace"
+		kind = "configured pair bound to the wrong namespace or to none"
 	}
-	// ':' in the credentials of the touched namespace (any version: old ones are cleared, new ones added)
-	uc, pc := false, false
+	join := func(q [2]string) string { return q[0] + ":" + q[1] }
+	rel := 0
 	for _, vs := range creds.Scenarios[fmt.Sprint(c.Sc)][st.N] {
 		for _, q := range vs {
-			uc = uc || strings.Contains(q[0], ":")
-			pc = pc || strings.Contains(q[1], ":")
+			f := strings.Split(join(q), ":")
+			r := 0
+			switch {
+			case q != p && join(q) == join(p):
+				r = 4
+			case q != p && f[0] == p[0] && f[1] == p[1]:
+				r = 3
+			case q == p && len(f) > 2:
+				r = 2
+			case q == p:
+				r = 1
+			}
+			if r > rel {
+				rel = r
+			}
 		}
 	}
-	touched := "plain"
-	switch {
-	case uc && pc:
-		touched = "':' in user and password"
-	case uc:
-		touched = "':' in user"
-	case pc:
-		touched = "':' in password"
-	}
+	relation := []string{
+		"is unrelated to the credentials of the changed namespace",
+		"is a credential (without ':') of the changed namespace",
+		"is a credential of the changed namespace that contains ':'",
+		"equals the first two ':'-separated fields of a credential of the changed namespace",
+		"reads like a credential of the changed namespace when joined with ':'",
+	}[rel]
 	op := st.Op
 	if op == "commit" || op == "prepare" {
 		op = "reload"
 	}
-	return fmt.Sprintf("C29 %s of a namespace whose credentials have %s -> %s (user %s, password %s)", op, touched, kind, rlColon(p[0]), rlColon(p[1]))
+	return fmt.Sprintf("C29 %s -> %s; the pair %s", op, kind, relation)
 }
 
 // rlReplayUserManager: the same behaviour on a bare UserManager (reload = RebuildNamespaceUsers at the commit,
 // delete = ClearNamespaceUsers).
-func rlReplayUserManager(creds *rlCreds, c *rlCase, res *verifkit.Result, cnt *rlCounters) {
+func rlReplayUserManager(creds *rlCreds, c *rlCase, res *verifkit.Result, cnt *rlCounters, usePtr bool) {
 	cfgs := map[string]*models.Namespace{}
 	for i, n := range c.Ns {
 		if c.Init[i] != 0 {
@@ -711,7 +763,7 @@ func rlReplayUserManager(creds *rlCreds, c *rlCase, res *verifkit.Result, cnt *r
 		return
 	}
 	uni := creds.universe(c.Sc, c.Ns)
-	auth := rlAuthOf(um.CheckUser, um.CheckPassword, um.GetNamespaceByUser)
+	auth := rlAuthOf(um.CheckUser, um.CheckPassword, um.GetNamespaceByUser, func(string) bool { return true })
 	bad := map[[2]string]bool{}
 	pending := map[string]int{}
 	for i := range c.Steps {
@@ -732,6 +784,12 @@ func rlReplayUserManager(creds *rlCreds, c *rlCase, res *verifkit.Result, cnt *r
 		}
 		cnt.steps++
 		want := rlTriples(creds, c.Sc, c.Ns, st.Exp)
+		if usePtr {
+			want = map[[2]string]string{}
+			for _, t := range st.Ptr {
+				want[[2]string{t[1], t[2]}] = t[0]
+			}
+		}
 		for _, p := range uni {
 			cnt.probes++
 			a := auth(p[0], p[1])
@@ -743,7 +801,7 @@ func rlReplayUserManager(creds *rlCreds, c *rlCase, res *verifkit.Result, cnt *r
 				continue
 			}
 			bad[p] = true
-			res.Dev(rlAuthSig(creds, c, st, p, want[p], a)+" [UserManager]", "step %d %s(%s): (%q,%q) must give %q, UserManager gives %q; reference directory %v",
+			res.Dev(rlAuthSig(creds, c, st, p, want[p], a), "step %d %s(%s): (%q,%q) must give %q, a bare UserManager (RebuildNamespaceUsers/ClearNamespaceUsers) gives %q; reference directory %v",
 				i, st.Op, st.N, p[0], p[1], want[p], a, rlShowTriples(want))
 		}
 	}
@@ -769,9 +827,11 @@ func TestVerifReloadReplay(t *testing.T) {
 			t.Fatal(err)
 		}
 	}
+	usePtr := verifkit.EnvInt("VERIF_RELOAD_USE_PTR", 0) == 1
 	hsEvery := verifkit.EnvInt("VERIF_RELOAD_HANDSHAKE_EVERY", 1)
 	traceEvery := verifkit.EnvInt("VERIF_RELOAD_TRACE_EVERY", 1)
 	maxDevCases := verifkit.EnvInt("VERIF_MAX_DEV_CASES", 1<<30)
+	keepFrom := verifkit.EnvInt("VERIF_RELOAD_KEEP_FROM", 1<<30) // cases from this index on are always reported in full
 	cnt := &rlCounters{}
 	ndev := 0
 	sigCount := map[string]int{}
@@ -786,18 +846,28 @@ func TestVerifReloadReplay(t *testing.T) {
 			tr = trace
 		}
 		pan, msg, stack := verifkit.Catch(func() {
-			rlReplayManager(creds, &c, res, cnt, tr, i, hsEvery > 0 && i%hsEvery == 0, prop)
+			rlReplayManager(creds, &c, res, cnt, tr, i, hsEvery > 0 && i%hsEvery == 0, prop, usePtr)
 		})
 		if pan {
 			res.Dev(prop+" harness panic outside an operation", "%s\n%s", msg, stack)
 		}
 		if prop == "C29" {
-			pan, msg, stack = verifkit.Catch(func() { rlReplayUserManager(creds, &c, res, cnt) })
+			pan, msg, stack = verifkit.Catch(func() { rlReplayUserManager(creds, &c, res, cnt, usePtr) })
 			if pan {
 				res.Dev("C29 panic in UserManager", "%s\n%s", msg, stack)
 			}
 		}
-		if len(res.Devs) > 0 {
+		if i >= keepFrom {
+			res.Obs = json.RawMessage(raw)
+			res.Tag("kept")
+			out.Write(res)
+			if len(res.Devs) > 0 {
+				ndev++
+				for _, d := range res.Devs {
+					sigCount[d.Sig]++
+				}
+			}
+		} else if len(res.Devs) > 0 {
 			ndev++
 			// every deviating behaviour is counted per signature; the full record is kept for the first few of each signature
 			keep := false
@@ -821,6 +891,123 @@ func TestVerifReloadReplay(t *testing.T) {
 		trace.Close(n, nil)
 	}
 	out.Close(n, map[string]interface{}{"steps": cnt.steps, "probes": cnt.probes, "handshake_probes": cnt.hsProbes,
-		"drift": cnt.drift, "drift_example": cnt.driftExample, "panics_without_visible_effect": cnt.panicsNoEffect,
+		"drift": cnt.drift, "drift_example": cnt.driftExample, "auth_drift": cnt.authDrift, "auth_drift_example": cnt.authDriftExample, "panics_without_visible_effect": cnt.panicsNoEffect,
 		"unexamined_after_drift": cnt.unexaminedAfterDrift, "deviating_cases": ndev, "sig_count": sigCount})
+}
+
+// ------------------------------------------------------------------ direction V: concurrent administrators
+
+type rlConcCase struct {
+	T       int             `json:"t"`
+	Sc      int             `json:"sc"`
+	Ns      []string        `json:"ns"`
+	Init    []int           `json:"init"`
+	Admins  [][]rlConcOp    `json:"admins"`
+	Lookups []string        `json:"lookups"`
+	Raw     json.RawMessage `json:"-"`
+}
+
+type rlConcOp struct {
+	Op string `json:"op"`
+	N  string `json:"n"`
+	V  int    `json:"v"`
+}
+
+type rlEvent struct {
+	T    int      `json:"t"`
+	Ev   string   `json:"ev"`
+	A    int      `json:"a"`
+	Op   string   `json:"op"`
+	N    string   `json:"n"`
+	V    int      `json:"v"`
+	Out  string   `json:"out"`
+	Obs  []int    `json:"obs"`
+	Ns   []string `json:"ns"`
+	Init []int    `json:"init"`
+	Nx   int      `json:"nx"`
+}
+
+// TestVerifReloadConcurrent: goroutines issue prepare/commit/delete (and one reads) on one real Manager with no
+// coordination other than a common start; every call is bracketed by a start and an end event appended to one
+// log under a mutex (the log order is consistent with real time).  No sleeps, no timing assumptions: whatever
+// interleaving happens is recorded and judged by TLC (Reload_lin.tla).
+func TestVerifReloadConcurrent(t *testing.T) {
+	out, err := verifkit.OpenOut()
+	if err != nil {
+		t.Fatal(err)
+	}
+	creds, err := rlLoadCreds()
+	if err != nil {
+		t.Fatal(err)
+	}
+	trace, err := verifkit.OpenOutPath(verifkit.TraceOutPath())
+	if err != nil {
+		t.Fatal(err)
+	}
+	nops, npanics := 0, 0
+	n, err := verifkit.EachCase(func(i int, raw json.RawMessage) error {
+		var c rlConcCase
+		if err := json.Unmarshal(raw, &c); err != nil {
+			return err
+		}
+		r, err := rlNewManager(creds, c.Sc, c.Ns, c.Init, false)
+		if err != nil {
+			return err
+		}
+		var mu sync.Mutex
+		var evs []rlEvent
+		rec := func(ev string, a int, op, n string, v int, o string) {
+			mu.Lock()
+			evs = append(evs, rlEvent{T: c.T, Ev: ev, A: a, Op: op, N: n, V: v, Out: o, Obs: []int{}, Ns: c.Ns, Init: c.Init})
+			mu.Unlock()
+		}
+		start := make(chan struct{})
+		var wg sync.WaitGroup
+		for ai, ops := range c.Admins {
+			wg.Add(1)
+			go func(a int, ops []rlConcOp) {
+				defer wg.Done()
+				<-start
+				for _, o := range ops {
+					rec("start", a, o.Op, o.N, o.V, "")
+					oc, _ := r.do(creds, c.Sc, o.Op, o.N, o.V)
+					rec("end", a, o.Op, o.N, o.V, oc)
+				}
+			}(ai+1, ops)
+		}
+		if len(c.Lookups) > 0 {
+			wg.Add(1)
+			go func() {
+				defer wg.Done()
+				<-start
+				for _, n := range c.Lookups {
+					rec("lstart", 0, "lookup", n, 0, "")
+					v := 0
+					if ns := r.m.GetNamespace(n); ns != nil {
+						v = ns.GetMaxExecuteTime() - rlVersionBase
+					}
+					rec("lend", 0, "lookup", n, v, "ok")
+				}
+			}()
+		}
+		close(start)
+		wg.Wait()
+		fin := rlEvent{T: c.T, Ev: "final", Obs: r.observe(), Ns: c.Ns, Init: c.Init}
+		for _, e := range evs {
+			if e.Ev == "end" {
+				nops++
+				if e.Out == "panic" {
+					npanics++
+				}
+			}
+			trace.Write(e)
+		}
+		trace.Write(fin)
+		return nil
+	})
+	if err != nil {
+		t.Fatal(err)
+	}
+	trace.Close(n, nil)
+	out.Close(n, map[string]interface{}{"operations": nops, "panics": npanics})
 }
